@@ -1,9 +1,11 @@
 use crate::{Out, R};
+pub mod c01;
 pub mod c18;
 
 pub fn run(prop: &str, rng: &mut R, out: &mut Out, extra: &[String]) -> bool {
     let _ = extra;
     match prop {
+        "C01" => c01::run(rng, out),
         "C18" => c18::run(rng, out),
         _ => return false,
     }
@@ -17,5 +19,4 @@ pub fn sizes() {
     println!("TxOut {}", std::mem::size_of::<TxOut>());
     println!("Transaction {}", std::mem::size_of::<Transaction>());
     println!("VecU8 {}", std::mem::size_of::<Vec<u8>>());
-    println!("TxMerkleNode {}", std::mem::size_of::<TxMerkleNode>());
 }
